@@ -13,6 +13,30 @@ from .source import Repo, FunctionInfo, _walk_no_nested
 from .spec import Registry, Contract, LoopSpec
 
 
+_qcache = {}
+
+
+def _quantified(e):
+    k = e.get_id()
+    if k in _qcache:
+        return _qcache[k]
+    seen = set()
+    stack = [e]
+    res = False
+    while stack:
+        x = stack.pop()
+        if z3.is_quantifier(x):
+            res = True
+            break
+        i = x.get_id()
+        if i in seen:
+            continue
+        seen.add(i)
+        stack.extend(x.children())
+    _qcache[k] = res
+    return res
+
+
 class PathEnd(Exception):
     pass
 
@@ -120,6 +144,7 @@ class Executor:
         self.pos = 0
         self.counter = {}
         self.field_oids = {}
+        self.heap_init = {}
         self.exact_cls = {}
         self.cur_line = 0
         self.pc.append(self.alloc0 > 0)
@@ -151,7 +176,8 @@ class Executor:
         s = z3.Solver()
         s.set('timeout', self.feas_solver_ms)
         for p in self.pc:
-            s.add(p)
+            if not _quantified(p):     # pruning only: dropping hypotheses can only keep more paths
+                s.add(p)
         s.add(extra)
         return s.check() != z3.unsat
 
@@ -278,12 +304,19 @@ class Executor:
                 if ty.kind == 'none':
                     raise Unsupported(f"field {fname!r} first assigned None without a declared type")
             self.heap[fname] = fresh(ty, f"H.{fname}", 1)
+            self.heap_init[fname] = self.heap[fname]
         return self.heap[fname]
 
     def heap_get(self, ref: VRef, fname) -> V:
         tree = self.heap_tree(fname, ref.cls)
         v = sel(tree, ref.z)
         self._ref_facts(v)
+        if isinstance(v, VSeq):
+            # well-typed heap: declared element types of sequence fields hold for every stored sequence
+            try:
+                self.assume_type(v, self.field_type(fname, ref.cls))
+            except Unsupported:
+                pass
         return v
 
     def _ref_facts(self, v):
